@@ -222,7 +222,11 @@ func (lr *laRun) finish(res *laResult, extra map[string]interface{}) int {
 			}
 			violations++
 			fmt.Printf("VIOLATION property=%s replay=%s\n", prop, dir)
-			fmt.Printf("  kernel=%s panics (%s: %s) on %d paths; inputs: %s\n", kr.Kernel.Name, id, ce.Note, st.Failed, fmtVals(ce))
+			if strings.HasPrefix(id, "hang@") {
+				fmt.Printf("  kernel=%s does not terminate (%s; the native replay overflows the stack or runs into the test timeout) on %d paths; inputs: %s\n", kr.Kernel.Name, ce.Note, st.Failed, fmtVals(ce))
+			} else {
+				fmt.Printf("  kernel=%s panics (%s: %s) on %d paths; inputs: %s\n", kr.Kernel.Name, id, ce.Note, st.Failed, fmtVals(ce))
+			}
 		}
 		// translator validation: a few passing paths are re-run natively with the solver's model
 		if violations == 0 && os.Getenv("VERIF_NO_TV") == "" {
